@@ -369,16 +369,12 @@ impl SimpleSelector {
             {
                 if SUBSELECTOR_PSEUDOS.contains(&unvendor(name)) {
                     return sel.components.iter().all(|complex| {
-                        if complex.components.len() != 1 {
-                            return false;
-                        };
-                        complex
-                            .components
-                            .first()
-                            .unwrap()
-                            .as_compound()
-                            .components
-                            .contains(self)
+                        match complex.components.as_slice() {
+                            [ComplexSelectorComponent::Compound(compound)] => {
+                                compound.components.contains(self)
+                            }
+                            _ => false,
+                        }
                     });
                 }
                 false
